@@ -16,8 +16,145 @@ static EXEC_COUNTER: AtomicU32 = AtomicU32::new(0);
 static SHARD: AtomicU32 = AtomicU32::new(0);
 static NEXT_PORT: AtomicU32 = AtomicU32::new(0);
 
+static SHARD_SET: std::sync::atomic::AtomicBool = std::sync::atomic::AtomicBool::new(false);
+
 pub fn set_shard(s: u32) {
     SHARD.store(s, Ordering::SeqCst);
+    SHARD_SET.store(true, Ordering::SeqCst);
+}
+
+// ---------------------------------------------------------------------------
+// Kernel-side determinism: the loopback fence
+// ---------------------------------------------------------------------------
+// A packet sent over loopback is put on the sending CPU's backlog queue and delivered to the
+// receiving socket by the NET_RX softirq.  Normally that runs before the send call returns, but
+// on a loaded machine the kernel hands it to ksoftirqd and delivery lags by an arbitrary amount of
+// real time -- which would make "nothing has arrived" depend on machine load.  The backlog queue
+// is FIFO per CPU, and this thread (harness and service tasks alike) is pinned to one CPU, so a
+// datagram the harness sends to itself arrives only after everything sent earlier from this
+// thread has reached its socket.  Every pump round is bracketed by such a fence; packets the
+// kernel generates while delivering (TCP SYN-ACK, ACK) are flushed by the following rounds' fences.
+thread_local! {
+    static FENCE: std::cell::RefCell<Option<(UdpSocket, u64)>> = const { std::cell::RefCell::new(None) };
+}
+static FENCES: std::sync::atomic::AtomicU64 = std::sync::atomic::AtomicU64::new(0);
+static FENCE_WAITS: std::sync::atomic::AtomicU64 = std::sync::atomic::AtomicU64::new(0);
+static PIN_FAILED: std::sync::atomic::AtomicBool = std::sync::atomic::AtomicBool::new(false);
+
+/// (fences executed, fences that had to wait for deferred delivery, pinning failed)
+pub fn fence_stats() -> (u64, u64, bool) {
+    (FENCES.load(Ordering::Relaxed), FENCE_WAITS.load(Ordering::Relaxed), PIN_FAILED.load(Ordering::Relaxed))
+}
+
+/// Pin the calling thread to one of the CPUs it may run on.
+pub fn pin_thread(hint: usize) {
+    unsafe {
+        // the mask may have been narrowed by an earlier pin (ours, or inherited from the parent
+        // process): widen it to everything the cgroup allows before choosing
+        let mut full: libc::cpu_set_t = std::mem::zeroed();
+        for c in 0..libc::CPU_SETSIZE as usize {
+            libc::CPU_SET(c, &mut full);
+        }
+        let _ = libc::sched_setaffinity(0, std::mem::size_of::<libc::cpu_set_t>(), &full);
+        let mut set: libc::cpu_set_t = std::mem::zeroed();
+        if libc::sched_getaffinity(0, std::mem::size_of::<libc::cpu_set_t>(), &mut set) != 0 {
+            PIN_FAILED.store(true, Ordering::Relaxed);
+            return;
+        }
+        let allowed: Vec<usize> = (0..libc::CPU_SETSIZE as usize).filter(|c| libc::CPU_ISSET(*c, &set)).collect();
+        if allowed.is_empty() {
+            PIN_FAILED.store(true, Ordering::Relaxed);
+            return;
+        }
+        if allowed.len() == 1 {
+            return;
+        }
+        // debugging knob: VERIF_PIN_CPU=<k> puts every thread of every worker on the k-th allowed
+        // CPU (worst-case contention; used to test that verdicts do not depend on machine load)
+        let hint = std::env::var("VERIF_PIN_CPU").ok().and_then(|v| v.parse::<usize>().ok()).unwrap_or(hint);
+        let cpu = allowed[hint % allowed.len()];
+        let mut one: libc::cpu_set_t = std::mem::zeroed();
+        libc::CPU_SET(cpu, &mut one);
+        if libc::sched_setaffinity(0, std::mem::size_of::<libc::cpu_set_t>(), &one) != 0 {
+            PIN_FAILED.store(true, Ordering::Relaxed);
+        }
+    }
+}
+
+thread_local! {
+    static TCP_FDS: std::cell::RefCell<Vec<i32>> = const { std::cell::RefCell::new(Vec::new()) };
+}
+
+/// Harness-side TCP sockets are registered here so that every fence can flush their pending
+/// (delayed) ACKs.  The service's sockets run without TCP_NODELAY, so a second small write waits
+/// (Nagle) for the ACK of the first; left to the kernel that ACK comes from a 40 ms *real-time*
+/// timer.  Flushing it at every fence ties it to harness progress instead.
+pub fn register_tcp(fd: i32) {
+    TCP_FDS.with(|v| v.borrow_mut().push(fd));
+}
+pub fn unregister_tcp(fd: i32) {
+    TCP_FDS.with(|v| v.borrow_mut().retain(|x| *x != fd));
+}
+fn flush_acks() {
+    TCP_FDS.with(|v| {
+        for fd in v.borrow().iter() {
+            let one: libc::c_int = 1;
+            unsafe {
+                libc::setsockopt(*fd, libc::IPPROTO_TCP, libc::TCP_QUICKACK, &one as *const _ as *const libc::c_void, std::mem::size_of::<libc::c_int>() as libc::socklen_t);
+            }
+        }
+    });
+}
+
+pub fn fence() {
+    flush_acks();
+    FENCE.with(|f| {
+        let mut f = f.borrow_mut();
+        if f.is_none() {
+            // a worker process is single-threaded: spread workers by shard; otherwise by thread id
+            let hint = if SHARD_SET.load(Ordering::SeqCst) { SHARD.load(Ordering::SeqCst) as usize } else { unsafe { libc::gettid() as usize } };
+            pin_thread(hint);
+            let s = UdpSocket::bind("127.0.0.1:0").expect("fence socket");
+            let a = s.local_addr().expect("fence addr");
+            s.connect(a).expect("fence connect");
+            s.set_nonblocking(true).expect("fence nonblocking");
+            *f = Some((s, 0));
+        }
+        let (s, seq) = f.as_mut().unwrap();
+        *seq += 1;
+        let want = *seq;
+        FENCES.fetch_add(1, Ordering::Relaxed);
+        loop {
+            match s.send(&want.to_le_bytes()) {
+                Ok(_) => break,
+                Err(e) if e.kind() == ErrorKind::WouldBlock || e.kind() == ErrorKind::Interrupted => continue,
+                Err(e) => panic!("fence send: {e}"),
+            }
+        }
+        let mut buf = [0u8; 8];
+        let mut waited = false;
+        let t0 = std::time::Instant::now();
+        loop {
+            match s.recv(&mut buf) {
+                Ok(8) if u64::from_le_bytes(buf) == want => break,
+                Ok(_) => continue,
+                Err(e) if e.kind() == ErrorKind::WouldBlock => {
+                    if !waited {
+                        waited = true;
+                        FENCE_WAITS.fetch_add(1, Ordering::Relaxed);
+                    }
+                    // delivery was deferred to ksoftirqd: sleep until the datagram is there
+                    let mut pfd = libc::pollfd { fd: std::os::fd::AsRawFd::as_raw_fd(s), events: libc::POLLIN, revents: 0 };
+                    unsafe { libc::poll(&mut pfd, 1, 1000) };
+                    if t0.elapsed() > Duration::from_secs(120) {
+                        panic!("loopback fence datagram not delivered within 120 s");
+                    }
+                }
+                Err(e) if e.kind() == ErrorKind::Interrupted => continue,
+                Err(e) => panic!("fence recv: {e}"),
+            }
+        }
+    });
 }
 
 /// Try to give this process its own network namespace (own loopback): perfect isolation between
@@ -78,6 +215,7 @@ impl Conn {
     fn new(stream: TcpStream) -> Self {
         stream.set_nonblocking(true).ok();
         stream.set_nodelay(true).ok();
+        register_tcp(std::os::fd::AsRawFd::as_raw_fd(&stream));
         Conn { stream, inbuf: vec![], eof: false, frames_in: vec![] }
     }
     /// Read whatever is available; split complete 2-octet-length frames off.
@@ -129,6 +267,12 @@ impl Conn {
         let mut b = (msg.len() as u16).to_be_bytes().to_vec();
         b.extend_from_slice(msg);
         self.send_raw(&b)
+    }
+}
+
+impl Drop for Conn {
+    fn drop(&mut self) {
+        unregister_tcp(std::os::fd::AsRawFd::as_raw_fd(&self.stream));
     }
 }
 
@@ -369,9 +513,11 @@ impl Rig {
         self.pumps += n as u64;
         self.rt.block_on(async {
             for _ in 0..n {
+                fence();
                 tokio::task::yield_now().await;
             }
         });
+        fence();
     }
 
     /// Move virtual time (tokio clock and CLOCK_REALTIME together).
@@ -379,11 +525,14 @@ impl Rig {
         clock::advance_nanos(d.as_nanos());
         self.virt_elapsed += d;
         self.rt.block_on(async {
+            fence();
             tokio::time::advance(d).await;
             for _ in 0..4 {
+                fence();
                 tokio::task::yield_now().await;
             }
         });
+        fence();
     }
 
     pub fn poll_upstreams(&mut self) -> bool {
@@ -396,7 +545,6 @@ impl Rig {
 
     /// Pump until `cond` holds (a positive effect).  Err = machinery timeout, never a verdict.
     pub fn wait_until<F: FnMut(&mut Rig) -> bool>(&mut self, mut cond: F, what: &str) -> Result<(), String> {
-        let t0 = std::time::Instant::now();
         let mut rounds = 0u32;
         loop {
             self.poll_upstreams();
@@ -405,14 +553,11 @@ impl Rig {
             }
             self.pump(2);
             rounds += 1;
-            if rounds > 50 {
-                // give the kernel a moment (loopback delivery is synchronous, this is only a safety net)
-                std::thread::sleep(Duration::from_micros(50));
-            }
             // Under the paused clock nothing can happen once every task is blocked on I/O or a
-            // timer, and loopback delivery is synchronous: a few hundred quiet rounds mean the
-            // effect is not coming.  Whether that is a verdict is the caller's decision.
-            if rounds > 300 && t0.elapsed() > Duration::from_millis(25) {
+            // timer, and every pump round is fenced against deferred loopback delivery: a few
+            // hundred quiet rounds mean the effect is not coming (no wall-clock enters the
+            // decision).  Whether that is a verdict is the caller's decision.
+            if rounds > 400 {
                 return Err(format!("no effect: {what}"));
             }
         }
